@@ -171,6 +171,17 @@ CHECKS = {
         design_ref="DESIGN.md 5 C17",
         technique="TLA+ spec (Copy action + frame condition) + TLC trace validation of multi-instance executions",
     ),
+    "C18": dict(
+        category="model_checking",
+        engine="tlc-diagram",
+        text=("Diagram.tla defines the abstract graph a definition denotes (nodes with final/active marks, initial edge, one edge per external "
+              "transition with events and guards, internal transitions inside their state); TLC evaluates it for every (definition, current "
+              "state); the pydot object of DotGraphMachine(class)() and of sm._graph() with every state as current state is projected to "
+              "the same shape and compared (edges as a bag)."),
+        design_ref="DESIGN.md 5 C18",
+        technique="TLA+ definition of the abstract diagram evaluated by TLC; differential projection of the real pydot graph",
+        note="Trusted base: TLC evaluating Diagram.tla; the pydot->abstract projection (label parsing) in lib/checks/c18.py.",
+    ),
 }
 
 NA_DEFAULT = "check not built yet (work in progress; will be claimed once its TLA+ model and conformance harness are committed)"
@@ -213,6 +224,8 @@ def main():
              "kind_free_text": "TLA+ transcription of callback argument binding evaluated by TLC over harness-enumerated cases (Eval_Bind)"},
             {"name": "tlc-validate", "path": "/verif/spec/Validate.tla", "serves_properties": ["C09"],
              "kind_free_text": "TLA+ definition of class-definition verdicts evaluated by TLC over exhaustively enumerated graphs (Eval_Validate)"},
+            {"name": "tlc-diagram", "path": "/verif/spec/Diagram.tla", "serves_properties": ["C18"],
+             "kind_free_text": "TLA+ definition of the abstract diagram evaluated by TLC (Eval_Diagram)"},
             {"name": "tlc-guardexpr", "path": "/verif/spec/GuardExpr.tla", "serves_properties": ["C08"],
              "kind_free_text": "TLA+ transcription of guard expressions (evaluation, rendering, parsing) evaluated by TLC over harness-enumerated cases (Eval_GuardExpr)"},
             {"name": "tlc-dispatch", "path": "/verif/spec/Dispatch.tla",
